@@ -173,6 +173,16 @@ func c36Fanout(c *fw.Ctx, round int64) {
 			time.Sleep(300 * time.Microsecond)
 		})
 	}
+	// token renewals on a channel that is busy in both directions (client and server side of the renewal)
+	if len(clients) > 1 {
+		cl := clients[len(clients)-1]
+		run(func(k int) {
+			if sc := cl.SecureChannel(); sc != nil {
+				sc.Renew(ctx)
+			}
+			time.Sleep(15 * time.Millisecond)
+		})
+	}
 	time.Sleep(300 * time.Millisecond)
 	for _, sc := range rs.Srv.VerifChannels() {
 		sc.Close() // the server drops its channels: clients reconnect while everything above keeps going
